@@ -36,3 +36,7 @@ Proof. split; reflexivity. Qed.
 
 Lemma x_three_mutexes : length x_global_mutexes = 3%nat /\ forallb (fun s => match lk_of_name s with Some _ => true | None => false end) x_global_mutexes = true.
 Proof. split; reflexivity. Qed.
+
+(* the unsafe Send / Sync impls of AbiConnection<T> require exactly T: Send / T: Sync *)
+Lemma x_conn_bounds : x_conn_sync_requires = "Sync" /\ x_conn_send_requires = "Send".
+Proof. split; reflexivity. Qed.
